@@ -75,6 +75,8 @@ class CallGraph:
         if not t:
             return None
         t = pointee_class(t)
+        if t is not None:
+            t = t.replace('(anonymous namespace)', '(anon)')
         if t in self.prog.records:
             return t
         if self._rec_short is None:
